@@ -667,7 +667,7 @@ fn scenarios(tier: &str) -> Vec<(&'static str, usize, usize, usize)> {
         ("c1.p/c2.s/p.t", 1, 0, 4000),
         ("c1.c2/-/s.p", 2, 0, 6000),
         // a non-last thread leaves (swap-remove) while the third requests
-        ("c1.c2.n/-/s", 2, 0, 15000),
+        ("c1.c2.n/-/s", 1, 0, 6000),
         ("c1.c2.t/p/n.s", 1, 0, 4000),
         // 3-4 threads mixed
         ("c1.c2.s/p.n.t/t.p.s", 1, 0, 4000),
@@ -684,6 +684,7 @@ fn scenarios(tier: &str) -> Vec<(&'static str, usize, usize, usize)> {
         ("c1.s.t/s.t", 3, 1, 40000),
         ("c1.c2.p/s.t/t", 3, 0, 40000),
         ("c1.c2/-/s.p", 3, 1, 40000),
+        ("c1.c2.n/-/s", 2, 0, 40000),
         ("c1.c2.n/-/s", 3, 1, 40000),
         ("c1.c2.s/p.n.t/t.p.s", 2, 1, 40000),
         ("c1.c2.c3.s/p/n/s", 1, 0, 40000),
@@ -888,7 +889,7 @@ fn main() {
             }
             // 3. seeded random schedules over random scenarios (PCT-style and uniform)
             let mut rng = Rng::from_env();
-            let nrand = if tier == "quick" { 2000 } else { 40000 };
+            let nrand = if tier == "quick" { 2000 } else { 20000 };
             for i in 0..nrand {
                 if sink.full() {
                     break;
